@@ -79,7 +79,7 @@ def extract(repo):
 def cases(rng, tier):
     n = 360 if tier == 'quick' else 8000
     k = 22 if tier == 'quick' else 40
-    fns = L.user_fns(L.FN_NAMES)
+    fns = L.spec_fns(L.FN_NAMES)
     for i in range(n):
         schema = L.gen_schema(rng, signing=rng.random() < 0.3)
         spec = L.Spec(schema, fns)
@@ -88,7 +88,7 @@ def cases(rng, tier):
         asym = L.asym_variant(rng, schema) if rng.random() < 0.1 else None
         if asym is not None:
             # an argument-order-sensitive user function (unknown to the Lean model): judged by the oracle only
-            schema, spec = asym, L.Spec(asym, L.user_fns(L.FN_NAMES + ['$first']))
+            schema, spec = asym, L.Spec(asym, L.spec_fns(L.FN_NAMES + ['$first']))
         names = L.gen_names(rng, schema, spec, k)
         if tier != 'quick' and i % 10 == 0:
             import itertools
